@@ -152,12 +152,98 @@ pub fn drive(d: &mut Driver)
 	}
 	jobs.reverse();
 	d.phase("declaration/use/label/goto bodies", jobs);
+	d.bound("use forms", json!({"skeletons": USE_SKELETONS.iter().map(|s| s.0).collect::<Vec<_>>(), "forms": USE_FORMS.iter().map(|f| f.0).collect::<Vec<_>>()}));
+	d.phase("every form of use in every scoping skeleton", vec![json!({"use_forms": true})]);
 	d.assume("model: engine/src/model/vars.rs — lexical scoping, the documented prune rule of docs/features.md, and an independent path analysis on the syntactic control-flow graph used one-directionally (accepted implies sound)");
 	d.assume("a variable name with a duplicate declaration is judged for E422 only; which declaration later uses bind to is not documented");
 }
 
+/// Scoping skeletons: (name, body with {DECL} and {USE}, expected code; 0 = accepted)
+pub const USE_SKELETONS: [(&str, &str, u16); 7] = [
+	("declared before the use", "\t{DECL}\n\t{USE}\n", 0),
+	("never declared", "\t{USE}\n", 402),
+	("declared in a block that has ended", "\t{\n\t\t{DECL}\n\t}\n\t{USE}\n", 402),
+	("declared after the use", "\t{USE}\n\t{DECL}\n", 402),
+	("declaration skipped by a goto", "\tgoto after;\n\t{DECL}\n\tafter:\n\t{USE}\n", 482),
+	("declaration skipped by a conditional goto, use in a nested block", "\tif c == 0\n\t\tgoto after;\n\t{DECL}\n\tafter:\n\t{\n\t\t{\n\t\t\t{USE}\n\t\t}\n\t}\n", 482),
+	("declared before a goto that skips nothing", "\t{DECL}\n\tgoto after;\n\tafter:\n\t{USE}\n", 0),
+];
+
+/// Forms of use of the variable `x`: (name, declaration of x, statement using x)
+pub const USE_FORMS: [(&str, &str, &str); 14] = [
+	("plain value", "var x: i32 = 1;", "y = x;"),
+	("operand", "var x: i32 = 1;", "y = x + 1;"),
+	("negation", "var x: i32 = 1;", "y = -x;"),
+	("condition", "var x: i32 = 1;", "if x == 1\n\t{\n\t\ty = 2;\n\t}"),
+	("argument of a builtin", "var x: i32 = 1;", "print!(x);"),
+	("argument of a call", "var x: i32 = 1;", "helper(x);"),
+	("array index", "var x: usize = 1;", "y = arr[x];"),
+	("length-of", "var x: [2]i32 = [1, 2];", "n = |x|;"),
+	("address-of", "var x: i32 = 1;", "var p: &i32 = &x;"),
+	("member value of a structure literal", "var x: i32 = 1;", "var s: S = S { m: x };"),
+	("element of an array literal", "var x: i32 = 1;", "var z: [2]i32 = [x, 1];"),
+	("assignment target", "var x: i32 = 1;", "x = 5;"),
+	("indexed assignment target", "var x: [2]i32 = [1, 2];", "x[0] = 5;"),
+	("cast operand", "var x: i32 = 1;", "var w: i64 = x as i64;"),
+];
+
+fn use_forms(w: &mut WorkerCtx)
+{
+	for (sname, skeleton, code) in USE_SKELETONS
+	{
+		for (fname, decl, usage) in USE_FORMS
+		{
+			w.result.states += 1;
+			w.result.transitions += 1;
+			let body = skeleton.replace("{DECL}", decl).replace("{USE}", usage);
+			let text = format!("struct S\n{{\n\tm: i32,\n}}\nfn helper(v: i32)\n{{\n}}\nfn f(c: i32)\n{{\n\tvar y: i32 = 0;\n\tvar n: usize = 0;\n\tvar arr: [3]i32 = [1, 2, 3];\n{body}}}\n");
+			let desc = || json!({"use_forms": true, "skeleton": sname, "form": fname, "text": text, "sig_hint": "use forms"});
+			let d = desc().to_string().into_bytes();
+			let src = text.clone();
+			match w.run_case(&d, || alpha::compile_one(&src, alpha::FULL))
+			{
+				CaseOutcome::Done(v) =>
+				{
+					w.result.validated += 1;
+					let codes = v.codes();
+					let ok = match (&v, code)
+					{
+						(Verdict::Ok { .. }, 0) => true,
+						(Verdict::Rejected { .. }, c) if c != 0 => codes.contains(&c),
+						_ => false,
+					};
+					w.result.outcome(&format!("use forms:{}{}", if code == 0 { "accepted".to_string() } else { format!("E{code}") }, if ok { "" } else { ":MISMATCH" }));
+					if !ok
+					{
+						let what = match (&v, code)
+						{
+							(Verdict::Ok { .. }, c) => format!("accepted-without-E{c}"),
+							(Verdict::Rejected { .. }, 0) => format!("well-scoped-body-rejected:E{}", codes.first().copied().unwrap_or(0)),
+							(Verdict::Rejected { .. }, c) => format!("rejected-without-E{c}:E{}", codes.first().copied().unwrap_or(0)),
+							(Verdict::InternalError(_), _) => "internal-error".to_string(),
+						};
+						w.result.violation(&format!("use-form:{what}:{fname}"), text.len() as u64, &desc, || format!("{sname}, use as {fname}: expected {}, the compiler says {:?} {codes:?}\n{text}", if code == 0 { "acceptance".to_string() } else { format!("E{code}") }, v.accepted()));
+					}
+				}
+				CaseOutcome::Panicked { site, message } =>
+				{
+					let sig = format!("panic@{}", crate::util::site_signature(&site, &message));
+					w.result.violation(&sig, text.len() as u64, &desc, || format!("{sname}, use as {fname}: panic at {site}: {message}\n{text}"));
+				}
+				CaseOutcome::Crashed { .. } =>
+				{}
+			}
+		}
+	}
+}
+
 pub fn work(spec: &Value, w: &mut WorkerCtx)
 {
+	if spec.get("use_forms").is_some() || spec.get("replay").map(|c| c.get("use_forms").is_some()).unwrap_or(false)
+	{
+		use_forms(w);
+		return;
+	}
 	if let Some(case) = spec.get("replay")
 	{
 		let variant = case["variant"].as_u64().unwrap() as usize;
